@@ -433,6 +433,11 @@ def run_playback(scratch, h, tests_src, logdir):
         detail = (m.group(1) + " " + m.group(2)) if m else ""
         detail = detail.replace(scratch.dir, "<scratch>")
         return True, "dev", tests_src, detail
+    died = re.search(r"test exited abnormally|\(signal: \d+|memory allocation of \d+ bytes failed|stack overflow", txt)
+    if died and "kani_concrete_playback_" in txt and not re.search(r"^error(\[E\d+\])?: (?!test failed)(?!.*exited with status)", txt, re.M):
+        # the native process running the counterexample was killed (abort, stack overflow, allocation failure):
+        # the real code does not survive this input
+        return True, "dev", tests_src, "the native test process died on the counterexample: " + died.group(0)
     if not oks:
         return False, "", tests_src, "playback did not run: " + _tail(plog, 15)
     return False, "", tests_src, f"{len(names)} playback test(s) passed natively (dev profile)"
